@@ -17,7 +17,7 @@ ASSUMPTIONS = [
     "prices, strikes, barriers and clause constants are representable in the dtype of the buffer (float32 cases use a "
     "dyadic grid), so no representation step of a Python scalar enters a comparison; float64 cases also use decimal strikes",
     "option payoffs: one rounding of the exact difference (tolerance eps*|exact|), binaries bitwise 0/1",
-    "forward start: tolerance 4*eps*max(ratio, K); when start/dt is within 8 ulps of an integer k both k-1 and k are admissible start indices",
+    "forward start: tolerance 4*eps*max(ratio, K); when start/dt is within 8 ulps of an integer k the start index is k (the grid point itself; repaired in /repo, F18), otherwise floor(start/dt)",
     "variance swap: 40-digit mpmath value with the a-priori forward bound of log->diff->square->mean->/dt (2-ulp logs) "
     "plus 2*eps*(|rv|+|K|) for the strike subtraction; T>=2 (a single point has no return)",
     "clauses: payoff() is compared with the exact composition, in registration order, applied to the float payoff_fn() "
@@ -113,8 +113,10 @@ def forward_start_case(draw):
     frac = 0.0
     if k < T - 1:
         frac = draw(st.sampled_from([0.0, 0.0, 0.0, 0.25, 0.5, 0.75, 0.999, 0.001, 0.51, 0.49]))
-    kind = draw(st.sampled_from(["product", "product", "sum"]))
-    if kind == "product" or frac != 0.0:
+    kind = draw(st.sampled_from(["product", "product", "sum", "quotient"]))
+    if kind == "quotient" and frac == 0.0 and round(1 / dt) > 0 and abs(round(1 / dt) * dt - 1) < 1e-9:
+        start = k / round(1 / dt)  # k/250 written the usual way
+    elif kind != "sum" or frac != 0.0:
         start = (k + frac) * dt
     else:
         start = 0.0
@@ -514,8 +516,8 @@ SUBS = [
         strategy=lambda tier: options_case(), examples={"quick": 8000, "thorough": 100000}),
     Sub("forward_start", check_forward_start,
         rule="EuropeanForwardStartOption on written paths, T in [1,8]; start = (k+frac)*dt with frac in {0, .001, .25, .49, .5, "
-             ".51, .75, .999} or the k-fold float sum of dt; oracle max(S_T/S_i-K,0) for i = floor(start/dt) (either neighbour "
-             "when the float ratio is within 8 ulps of an integer); clauses as above. Non-trivial: the start index is observable "
+             ".51, .75, .999} or the k-fold float sum of dt; oracle max(S_T/S_i-K,0) for i = floor(start/dt), and i = k "
+             "when the float ratio is within 8 ulps of an integer k (on either side); clauses as above. Non-trivial: the start index is observable "
              "(prices next to it differ), or the ratio ties with the strike, or >=2 clauses.",
         strategy=lambda tier: forward_start_case(), examples={"quick": 6000, "thorough": 80000}),
     Sub("variance_swap", check_variance_swap,
